@@ -96,6 +96,8 @@ func main() {
 		cmdGen(*out)
 	case "C05":
 		cmdC05(*tier, *seed, *out, *stats, *replay)
+	case "C06":
+		cmdC06(*tier, *seed, *out, *stats, *replay)
 	case "C11":
 		cmdC11(*tier, *seed, *out, *stats, *replay)
 	case "C12":
